@@ -3,6 +3,7 @@ package diff
 import (
 	"fmt"
 	"reflect"
+	"sort"
 	"strings"
 
 	"github.com/go-openapi/spec"
@@ -65,6 +66,12 @@ func (sd *SpecAnalyser) Analyse(spec1, spec2 *spec.Swagger) error {
 	sd.analyseResponseParams()
 	sd.analyseExtensions(spec1, spec2)
 	sd.AnalyseDefinitions()
+
+	// differences are collected while ranging over maps: order them so that reports
+	// (in particular the JSON report, which is rendered in this order) are reproducible
+	sort.SliceStable(sd.Diffs, func(i, j int) bool {
+		return sd.Diffs[i].String() < sd.Diffs[j].String()
+	})
 
 	return nil
 }
